@@ -2,6 +2,8 @@ import HmsProofs.Lemmas.CheckBasic
 /-! Completeness of the checker (C03): every derivation of the declarative typing relation is
 reproduced by the checker without a diagnostic and with exactly the derivation's attributes.
 Mutual structural recursion over the syntax, inverting the derivation. -/
+set_option linter.unusedSimpArgs false
+
 namespace HmsProofs.Lemmas.Check
 open Hms.Check
 
@@ -21,7 +23,7 @@ theorem match_default_ok {d : Option (List Ty)} {noArms : Bool} {rt : Ty}
       then [(⟨Msg.missingDefault, Rule.missingDefault⟩ : Err)] else []) = [] := by
   cases hd with
   | inl hs => cases d <;> simp_all
-  | inr hcm => simp only [Compat] at hcm; simp [hcm]
+  | inr hcm => simp [compat_iff.mp hcm]
 
 theorem replicate_zero {α} (a : α) : List.replicate 0 a = [] := rfl
 
@@ -52,8 +54,7 @@ theorem complete_expr : (e : PExpr) → ∀ (Γ : Ctx) (s : Bool) (t : Ty) (x c 
     have ihb := complete_expr b Γ true
     intro h; cases h with | mk hraw hany =>
     cases hraw with | range ha hb hca hcb =>
-    simp only [Compat] at hca hcb
-    simp only [checkExpr, iha _ _ _ _ ha, ihb _ _ _ _ hb, hca, hcb, Option.isSome_none, Bool.false_eq_true, ↓reduceIte,
+    simp only [checkExpr, iha _ _ _ _ ha, ihb _ _ _ _ hb, compat_iff.mp hca, compat_iff.mp hcb, Option.isSome_none, Bool.false_eq_true, ↓reduceIte,
       List.append_nil]
     exact wrap_ok_eq hany
   | .list xs, Γ, s, t, x, c, l => by
@@ -145,8 +146,7 @@ theorem complete_expr : (e : PExpr) → ∀ (Γ : Ctx) (s : Bool) (t : Ty) (x c 
     have iht := complete_block th Γ
     intro h; cases h with | mk hraw hany =>
     cases hraw with | ifThen hc hcb ht hn =>
-    simp only [Compat] at hn
-    simp only [checkExpr, ihc _ _ _ _ hc, iht _ _ _ _ ht, tcErr_of_compat hcb, hn, Option.isSome_none, Bool.false_eq_true,
+    simp only [checkExpr, ihc _ _ _ _ hc, iht _ _ _ _ ht, tcErr_of_compat hcb, compat_iff.mp hn, Option.isSome_none, Bool.false_eq_true,
       ↓reduceIte, List.append_nil]
     exact wrap_ok_eq hany
   | .matchE cnd arms, Γ, s, t, x, c, tys => by
